@@ -34,7 +34,11 @@ func genRootJAny(t *rapid.T, obj bool) jany {
 		}
 		// construct rather than reject: wrap whatever was drawn
 		if obj {
-			return jany{K: "obj", Keys: [][]byte{genJString(t), []byte("k")}, Kids: []jany{n, genJAny(t, 2)}}
+			k1, k2 := genJString(t), []byte("k")
+			if string(k1) == string(k2) {
+				k2 = []byte("k2") // members of one object have distinct keys
+			}
+			return jany{K: "obj", Keys: [][]byte{k1, k2}, Kids: []jany{n, genJAny(t, 2)}}
 		}
 		return jany{K: "arr", Kids: []jany{n, genJAny(t, 2)}}
 	}
